@@ -68,19 +68,19 @@ pub fn build(c: &C10Case) -> Case {
     by0w.extend(vec![WOp::Write(3); BY_FRAMES as usize]);
     let streams = vec![
         // s0: bystander, A writes after the wake
-        StreamSpec { side: 0, port: 1, pad: vec![], delay: 0, park: None, ends: [keep(by0w, vec![]), EndScript::default()] },
+        StreamSpec { side: 0, port: 1, pad: vec![], delay: 0, park: None, cancel: None, ends: [keep(by0w, vec![]), EndScript::default()] },
         // s1: bystander, the peer writes (PushFor), A reads
-        StreamSpec { side: 0, port: 1, pad: vec![], delay: 0, park: None, ends: [keep(vec![], vec![ROp::Read(64); BY_FRAMES as usize]), EndScript::default()] },
+        StreamSpec { side: 0, port: 1, pad: vec![], delay: 0, park: None, cancel: None, ends: [keep(vec![], vec![ROp::Read(64); BY_FRAMES as usize]), EndScript::default()] },
         // s2: target, established, application holds it, reader idle
-        StreamSpec { side: 0, port: 1, pad: vec![], delay: 0, park: None, ends: [keep(vec![], vec![]), EndScript::default()] },
+        StreamSpec { side: 0, port: 1, pad: vec![], delay: 0, park: None, cancel: None, ends: [keep(vec![], vec![]), EndScript::default()] },
         // s3: half-closed by A
-        StreamSpec { side: 0, port: 1, pad: vec![], delay: 0, park: None, ends: [keep(vec![WOp::Shutdown], vec![]), EndScript::default()] },
+        StreamSpec { side: 0, port: 1, pad: vec![], delay: 0, park: None, cancel: None, ends: [keep(vec![WOp::Shutdown], vec![]), EndScript::default()] },
         // s4: stale: opened and dropped
-        StreamSpec { side: 0, port: 1, pad: vec![], delay: 0, park: None, ends: [keep(vec![WOp::Drop], vec![]), EndScript::default()] },
+        StreamSpec { side: 0, port: 1, pad: vec![], delay: 0, park: None, cancel: None, ends: [keep(vec![WOp::Drop], vec![]), EndScript::default()] },
         // s5: requested, never answered by the peer's policy
-        StreamSpec { side: 0, port: 1, pad: vec![], delay: 0, park: None, ends: [EndScript::default(), EndScript::default()] },
+        StreamSpec { side: 0, port: 1, pad: vec![], delay: 0, park: None, cancel: None, ends: [EndScript::default(), EndScript::default()] },
         // s6: late local open after the sequence
-        StreamSpec { side: 0, port: 1, pad: vec![], delay: 0, park: Some(2), ends: [keep(vec![WOp::Write(1)], vec![]), EndScript::default()] },
+        StreamSpec { side: 0, port: 1, pad: vec![], delay: 0, park: Some(2), cancel: None, ends: [keep(vec![WOp::Write(1)], vec![]), EndScript::default()] },
     ];
     let mut events = vec![RawEvent { when: Trigger::Quiescent, what: What::Wake(1) }];
     // the peer's pushes for bystander s1 interleave with the sequence
@@ -465,8 +465,8 @@ pub fn c10(ctx: &Ctx, rep: &mut Report) {
                 opts: [OptsSpec { rwnd: 4, thr: 1, stream_buf: 16, dgram_buf: buf, bind_buf: 0, retries: 1 }, OptsSpec::default()],
                 rng: [vec![ID_BY0, ID_LATE], vec![]],
                 streams: vec![
-                    StreamSpec { side: 0, port: 1, pad: vec![], delay: 0, park: None, ends: [EndScript { w: vec![WOp::Write(2)], r: vec![ROp::Read(64), ROp::Read(64)] }, EndScript::default()] },
-                    StreamSpec { side: 0, port: 1, pad: vec![], delay: 0, park: Some(2), ends: [EndScript { w: vec![WOp::Write(1)], r: vec![ROp::Read(8)] }, EndScript::default()] },
+                    StreamSpec { side: 0, port: 1, pad: vec![], delay: 0, park: None, cancel: None, ends: [EndScript { w: vec![WOp::Write(2)], r: vec![ROp::Read(64), ROp::Read(64)] }, EndScript::default()] },
+                    StreamSpec { side: 0, port: 1, pad: vec![], delay: 0, park: Some(2), cancel: None, ends: [EndScript { w: vec![WOp::Write(1)], r: vec![ROp::Read(8)] }, EndScript::default()] },
                 ],
                 dg_readers: [reader, DgReader::None],
                 raw: Some(RawPolicy { reject_first: 0, ack_connects: Some(64), ack_every: Some(1), answer_close: true, no_ack_streams: vec![] }),
